@@ -461,4 +461,39 @@ theorem loadAll_good (ln : Line) (rest : List Line) (hg : ∀ l ∈ ln :: rest, 
   rw [List.dropWhile_cons]
   simp only [hs, Bool.false_eq_true, if_false, h0, false_and, hgp, hst, finish]
 
+/-- The line a writer that failed in the middle of a `Write` leaves behind. -/
+def tornLine : Line := { ref := 0, updater := "", fp := "", body := .garbage }
+
+theorem takeWhile_append_stop {α : Type} (p : α → Bool) (l : List α) (x : α) (h : ∀ y ∈ l, p y = true)
+    (hx : p x = false) : (l ++ [x]).takeWhile p = l ∧ (l ++ [x]).dropWhile p = [x] := by
+  induction l with
+  | nil => simp [hx]
+  | cons a l ih =>
+    obtain ⟨h1, h2⟩ := ih (fun y hy => h y (by simp [hy]))
+    simp [h a (by simp), h1, h2]
+
+/-- A file `Store` could have written (decodable lines, first ref not Nil, or no
+    line at all) followed by a torn line: every entry is reported — the last
+    one as if it were complete — and the iteration ends with an error. -/
+theorem loadAll_torn (ls : List Line) (hg : ∀ l ∈ ls, l.body.good = true)
+    (h0 : ∀ ln rest, ls = ln :: rest → ln.ref ≠ 0) :
+    loadAll (ls ++ [tornLine]) = (((runs ls).filterMap entryOfRun).map some, .err) := by
+  rw [loadAll_eq_spec, loadSpec]
+  have hx : tornLine.body.good = false := rfl
+  obtain ⟨htw, hdw⟩ := takeWhile_append_stop (fun (l : Line) => l.body.good) ls tornLine hg hx
+  cases ls with
+  | nil => simp [tornLine, skipped, Body.isRec, goodPrefix, stopOf, Body.good, runs_nil, finish]
+  | cons ln rest =>
+    have hr := h0 ln rest rfl
+    have hs : skipped ln = false := by simp [skipped, hr]
+    simp only [List.cons_append, List.dropWhile_cons, hs, Bool.false_eq_true, if_false, hr, false_and]
+    have hgp : goodPrefix (ln :: (rest ++ [tornLine])) = ln :: rest := by
+      simpa [goodPrefix] using htw
+    have hst : stopOf (ln :: (rest ++ [tornLine])) = .garbage := by
+      have : (ln :: (rest ++ [tornLine])).dropWhile (·.body.good) = [tornLine] := by simpa using hdw
+      unfold stopOf
+      rw [this]
+      rfl
+    rw [hgp, hst, finish]
+
 end ClairModel.JsonBlob
